@@ -542,6 +542,41 @@ theorem C15_command_to_branch_existing (root : Path) (cfg : Cfg) (skipGit : Bool
     simp only [xvcCommand, Bool.false_eq_true, if_false]
     exact runPhases_to_branch_existing root cfg msg b g phases (hinv rfl) hc hb
 
+/-! ## aborts (panics) between the git invocations -/
+
+/-- **C15, aborts outside the stash sandwich.**  `git_auto_commit` with an abort transition at every
+    place between two git invocations (`gitAutoCommitP`, `PanicSites`).  Hypothesis
+    `NoPanicInsideSandwich`: the pure computations between `git stash push --staged` and
+    `git stash pop --index` do not panic — `debug!` + the `checkout -b` arguments, the argument array
+    of `git add`, the construction of the commit message `format!("Xvc auto-commit after '{xvc_cmd}'")`
+    from the command line, the `debug!` calls around `git commit`.  Then for every state in the
+    fragment, every layout, `--to-branch`, git outcome, and WHATEVER panics before the push
+    (`beforeStash`) or after the pop (`afterPop`, which includes the caller's `.unwrap()` on the
+    returned `Err`): the state the process leaves — completed or aborted — keeps the user's Git state.
+
+    This is a statement about the control flow.  That the named computations do not panic is NOT
+    proved here (they are Rust library calls on the command line, paths and git output); it is what
+    the binary-level oracle of `lib/c15.py` observes on the generated inputs (long command lines of
+    multi-byte characters in every alignment, git failures, E2BIG): see
+    `C15_abort_inside_sandwich_counterexample` for what happens otherwise. -/
+theorem C15_abort_outside_sandwich_keeps_user_state (root : Path) (s : PanicSites) (g : G) (msg : String)
+    (tb : Option String) (hookOk : Bool) (hm : NoMixed g) (hin : NoPanicInsideSandwich s) :
+    (gitAutoCommitP s (isXvcPathAt root) g msg tb hookOk).status ≠ .outside ∧
+    UserStateKept root tb g (gitAutoCommitP s (isXvcPathAt root) g msg tb hookOk).g ∧
+    (∀ p, (gitAutoCommitP s (isXvcPathAt root) g msg tb hookOk).g.wt.find? p = g.wt.find? p) ∧
+    NoMixed (gitAutoCommitP s (isXvcPathAt root) g msg tb hookOk).g := by
+  cases hb : s.beforeStash with
+  | true =>
+    have : gitAutoCommitP s (isXvcPathAt root) g msg tb hookOk = ⟨g, .ok, true⟩ := by
+      unfold gitAutoCommitP; simp [hb]
+    rw [this]
+    exact ⟨by simp, UserStateKept.refl' root tb g, fun _ => rfl, hm⟩
+  | false =>
+    obtain ⟨e1, e2⟩ := autoCommitP_eq s hb hin (isXvcPathAt root) g msg tb hookOk
+    rw [e1, e2]
+    have h := autoCommit_facts (isXvcPathAt root) g msg tb hookOk hm
+    exact ⟨h.1.inside, UserStateKept.of_call h.1, h.1.wt, h.2.1⟩
+
 /-! ## non-vacuity: a concrete, busy user state inside the fragment -/
 
 /-- HEAD tree of the example: four user files, xvc's files -/
@@ -760,6 +795,52 @@ example :
     o.status = .gitError ∧ o.g.commits.length = 1 ∧ o.g.stash = exNested.stash ∧
     o.g.index.find? ["notes.txt"] = some "n1" ∧ o.g.index.find? ["proj", ".xvc", "store", "a.json"] = none := by decide
 
+/-! ## a panic between `stash push` and `stash pop` -/
+
+/-- the commit message cannot be built (e.g. a `String::truncate` off a character boundary) -/
+def panicInMessage : PanicSites := ⟨false, false, false, true, false, false⟩
+
+example : NoPanicInsideSandwich ⟨true, false, false, false, false, true⟩ := by decide
+example : ¬ NoPanicInsideSandwich panicInMessage := by decide
+
+/-- **An abort INSIDE the sandwich** (on the busy state `exState`: staged new / modified / deleted
+    user files, a stash entry of the user's, fresh xvc writes): the process ends between
+    `git stash push --staged` and `git stash pop --index`.  The stash list has one entry more (on top
+    of the user's own), the staged new file is gone from index AND work tree, the staged
+    modification and the staged deletion are reverted, xvc's files are staged but uncommitted.
+    This is a property of the control flow of the UNCHANGED `git_auto_commit` as well — it holds IF
+    one of the computations named by `PanicSites.inCheckout/inAdd/inMessage/inAfterCommit` panics;
+    nothing here says that they can.  That they do not panic is observed, not proved: the oracle
+    of `lib/c15.py` runs the real binary on long multi-byte command lines, rejected commits, etc. -/
+theorem C15_abort_inside_sandwich_counterexample :
+    let o := gitAutoCommitP panicInMessage isXvcPath exState "m" none true
+    o.aborted = true ∧ o.g.stash.length = exState.stash.length + 1 ∧ o.g.stash ≠ exState.stash ∧
+    o.g.index.find? ["new.txt"] = none ∧ o.g.wt.find? ["new.txt"] = none ∧
+    exState.index.find? ["new.txt"] = some "n1" ∧
+    o.g.wt.find? ["m.txt"] = some "m1" ∧ exState.wt.find? ["m.txt"] = some "m2" ∧
+    o.g.index.find? ["del.txt"] = some "d1" ∧ exState.index.find? ["del.txt"] = none ∧
+    o.g.index.find? [".xvc", "store", "a.json"] = some "s1" ∧ o.g.commits = exState.commits ∧
+    (o.g.stash.head?.map (fun e => e.idx.find? ["new.txt"])) = some (some "n1") := by decide
+
+/-- the other three places inside the sandwich lose the staged work in the same way -/
+example :
+    (gitAutoCommitP ⟨false, true, false, false, false, false⟩ isXvcPath exState "m" none true).g.index.find? ["new.txt"] = none ∧
+    (gitAutoCommitP ⟨false, false, true, false, false, false⟩ isXvcPath exState "m" none true).g.index.find? ["new.txt"] = none ∧
+    (gitAutoCommitP ⟨false, false, false, false, true, false⟩ isXvcPath exState "m" none true).g.index.find? ["new.txt"] = none ∧
+    (gitAutoCommitP ⟨false, false, false, false, true, false⟩ isXvcPath exState "m" none true).g.stash.length = 2 := by decide
+
+/-- aborts OUTSIDE the sandwich on the same state (instance of
+    `C15_abort_outside_sandwich_keeps_user_state`): before the push nothing has happened; after the
+    pop everything is back, also when the commit was rejected and the caller's `.unwrap()` panics -/
+example :
+    let a := gitAutoCommitP ⟨true, false, false, false, false, false⟩ isXvcPath exState "m" none true
+    let b := gitAutoCommitP ⟨false, false, false, false, false, true⟩ isXvcPath exState "m" none true
+    let c := gitAutoCommitP ⟨false, false, false, false, false, true⟩ isXvcPath exState "m" none false
+    a.aborted = true ∧ a.g.stash = exState.stash ∧ a.g.index.find? ["new.txt"] = some "n1" ∧
+    b.aborted = true ∧ b.g.stash = exState.stash ∧ b.g.index.find? ["new.txt"] = some "n1" ∧ b.g.commits.length = 2 ∧
+    c.aborted = true ∧ c.status = .gitError ∧ c.g.stash = exState.stash ∧ c.g.index.find? ["new.txt"] = some "n1" ∧
+    c.g.wt.find? ["new.txt"] = some "n1" ∧ c.g.index.find? ["del.txt"] = none ∧ c.g.commits.length = 1 := by decide
+
 /-! ## branches with histories of their own; `--to-branch` naming one of them -/
 
 def brBase : Tree := [(["t.txt"], "t1"), ([".gitignore"], "gi0"), ([".xvc", "config.toml"], "c0")]
@@ -897,6 +978,10 @@ open Git in
 #print axioms C15_to_branch_existing_witness
 open Git in
 #print axioms C15_to_branch_force_counterexample
+open Git in
+#print axioms C15_abort_outside_sandwich_keeps_user_state
+open Git in
+#print axioms C15_abort_inside_sandwich_counterexample
 open Git in
 #print axioms C15_nested_staged_outside_witness
 open Git in
